@@ -26,7 +26,10 @@ struct Engine {
     std::map<std::string, std::string> sqrt_cache;
     std::map<unsigned, int> known; std::vector<z3::expr> keep;   // `keep` pins the ASTs whose ids are cached
     void reset(const std::vector<Dec>& pre) {
-        delete s; s = new z3::solver(ctx);
+        delete s;
+        // SX_NLSAT=1: polynomial real arithmetic only -> the nlsat tactic as the path solver (no integers are ever declared:
+        // conversions to int enumerate candidates under real-only constraints)
+        if (getenv("SX_NLSAT")) s = new z3::solver(z3::tactic(ctx, "qfnra-nlsat").mk_solver()); else s = new z3::solver(ctx);
         z3::params p(ctx); p.set("timeout", timeout_ms); s->set(p);
         dec = pre; cur = 0; sqrt_cache.clear(); known.clear(); keep.clear(); int_cache.clear(); fresh = 0;
     }
